@@ -672,6 +672,13 @@ class Engine:
         self.candidates.append(Candidate(label, self.witness(), detail))
         raise PathStop()
 
+    def cp_value(self, cp_id):
+        """The single value of a leaf code point if the path has pinned it, else None."""
+        d = self.dom.get(cp_id)
+        if d is not None and len(d) == 1 and d[0][0] == d[0][1]:
+            return d[0][0]
+        return None
+
     def note(self, key, n=1):
         self.notes[key] = self.notes.get(key, 0) + n
 
